@@ -345,6 +345,13 @@ def hot_helpers(m, cls, driver):
     def touches_headers(f):
         return any(isinstance(x, ast.Call) and isinstance(x.func, ast.Attribute) and x.func.attr in ("copy", "pop", "update", "discard", "_prepare_for_method_change") for x in ast.walk(f.node))
     hot |= {n_ for n_, f in methods.items() if n_ not in NEVER_INLINE and n_.startswith("_") and not n_.startswith("__") and touches_headers(f)}
+    # every other private helper the driver reaches (a step of urlopen moved into a method or a module function) is interpreted
+    # in place as well: what the rules see must not depend on where the maintainers keep the code
+    from ..rows import helper_closure
+    reach = helper_closure(m, [driver], stop=tuple(NEVER_INLINE))
+    extra = {q for q in reach if q != driver.qual}
+    hot_q = frozenset(methods[n_].qual for n_ in hot) | frozenset(extra)
+    return hot_q
     changed = True
     while changed:
         changed = False
